@@ -163,29 +163,11 @@ def build(ctx):
         raise Inconclusive('handle_formatted_file has no returning path')
     lib.stubs = [x for x in lib.stubs if 'write_file' not in x[2]]
     lib.lenient = was_lenient
+    part_write_file(ctx, lib, replay_cli(ctx, 'files'))
 
     # ---------------------------------------------------------------- D. create_emitter: a writing emitter only for EmitMode::Files
-    lib.inline_only = [re.compile(r'src/config/config_type\.rs'), re.compile(r'^Config::'), re.compile(r'src/emitter'), re.compile(r'create_emitter')]
-    ce = lib.find('create_emitter', free=True)
-    st = State()
-    cfgref, cv = make_config(lib, st)
-    em = cv['emit_mode']
+    part_create_emitter(ctx, lib, replay_cli(ctx, 'create'))
     modes = lib.enum_variants('EmitMode')
-    outs = ctx.check_outcomes(lib.run(ce, [cfgref], st), 'create_emitter')
-    for i, o in enumerate(outs):
-        if o.kind != 'ret':
-            ctx.prop('create_emitter/p%d/no-panic' % i, o.state.pc, z3.BoolVal(True), [em.discr], replay_cli(ctx, 'create'), twin=False)
-            continue
-        nm = emitter_type(lib, o.state, o.value)
-        if nm is None:
-            raise Inconclusive('create_emitter result not recognised: %r' % (o.value,))
-        is_files = em.discr == modes.index('Files')
-        ctx.prop('create_emitter/p%d/%s/writing-emitter-iff-Files-mode' % (i, nm), o.state.pc, z3.BoolVal(nm in WRITERS) != is_files, [em.discr], replay_cli(ctx, 'create'))
-        if nm in WRITERS:
-            ctx.prop('create_emitter/p%d/%s/backup-emitter-iff-make_backup' % (i, nm), o.state.pc, z3.BoolVal(nm == 'FilesWithBackupEmitter') != cv['make_backup'],
-                     [em.discr], replay_cli(ctx, 'create'))
-        if nm == 'DiffEmitter':
-            ctx.prop('create_emitter/p%d/DiffEmitter-only-for-Diff-mode' % i, o.state.pc, em.discr != modes.index('Diff'), [em.discr], replay_cli(ctx, 'create'), twin=False)
 
     # ---------------------------------------------------------------- B/E on the binary
     both = ctx.engine(('rustfmt', 'lib'), loop_bound=4)
@@ -300,6 +282,125 @@ def build(ctx):
         ctx.prop('apply_to/inline%d/--check-selects-the-diff-emitter' % ninline, [], z3.Or(viol), [], replay_cli(ctx, 'check-inline'), classes=cls, twin=False)
     ctx.cover('cover/check-with-diff-and-no-error', [z3.BoolVal(True)])
     validate(ctx)
+
+
+def part_create_emitter(ctx, lib, rp):
+    """lib.rs::create_emitter over a symbolic Config: a writing emitter exactly for EmitMode::Files, the backup emitter exactly with make_backup
+    (whatever the other options say), the diff emitter only for Diff."""
+    WRITERS = {'FilesEmitter', 'FilesWithBackupEmitter'}
+    old = (lib.inline_only, lib.lenient)
+    lib.lenient = True          # Box::new / Default of the emitter structs are environment
+    lib.inline_only = [re.compile(r'src/config/config_type\.rs'), re.compile(r'^Config::'), re.compile(r'src/emitter'), re.compile(r'create_emitter')]
+    try:
+        ce = lib.find('create_emitter', free=True)
+        st = State()
+        cfgref, cv = make_config(lib, st)
+        em = cv['emit_mode']
+        modes = lib.enum_variants('EmitMode')
+        outs = ctx.check_outcomes(lib.run(ce, [cfgref], st), 'create_emitter')
+    finally:
+        lib.inline_only, lib.lenient = old
+    for i, o in enumerate(outs):
+        if o.kind != 'ret':
+            ctx.prop('create_emitter/p%d/no-panic' % i, o.state.pc, z3.BoolVal(True), [em.discr], rp, twin=False)
+            continue
+        nm = emitter_type(lib, o.state, o.value)
+        if nm is None:
+            raise Inconclusive('create_emitter result not recognised: %r' % (o.value,))
+        is_files = em.discr == modes.index('Files')
+        ctx.prop('create_emitter/p%d/%s/writing-emitter-iff-Files-mode' % (i, nm), o.state.pc, z3.BoolVal(nm in WRITERS) != is_files, [em.discr], rp)
+        if nm in WRITERS:
+            ctx.prop('create_emitter/p%d/%s/backup-emitter-iff-make_backup' % (i, nm), o.state.pc, z3.BoolVal(nm == 'FilesWithBackupEmitter') != cv['make_backup'], [em.discr], rp)
+        if nm == 'DiffEmitter':
+            ctx.prop('create_emitter/p%d/DiffEmitter-only-for-Diff-mode' % i, o.state.pc, em.discr != modes.index('Diff'), [em.discr], rp, twin=False)
+
+
+def part_write_file(ctx, lib, rp):
+    """source_file::write_file: which text is handed to the emitter as the original.  rustc's source map keeps every file with LF terminators, so
+    whenever the user fixed a newline style (anything but Auto) and the input is a real file, the original must be the bytes on disk - otherwise
+    a file that differs from its formatted text only in its terminators looks unchanged (not rewritten, no diff, --check exits 0).  With Auto, or
+    for standard input, the text of the parse session is used when there is one, the file otherwise."""
+    name = lib.find('write_file', free=True)
+    ns = lib.enum_variants('NewlineStyle')
+    AUTO = ns.index('Auto')
+    fnv = lib.enum_variants('FileName')
+    REAL, STDIN = fnv.index('Real'), fnv.index('Stdin')
+    old = (lib.lenient, lib.inline_only, list(lib.stubs))
+    lib.lenient = True
+    lib.stubs = []
+    lib.inline_only = [re.compile(r'^write_file($|::)'), re.compile(r'(FileName|NewlineStyle) as (std::cmp::)?PartialEq'), re.compile(r'Option::<.*>::and_then')]
+    disk = lib.fresh_str('text_on_disk')
+    smap = lib.fresh_str('text_in_the_source_map')
+    read_ok = z3.Bool('read_to_string.ok')
+    have_snip = z3.Bool('source_map_has_the_file')
+
+    def deref(e, s_, v):
+        while isinstance(v, Ref):
+            v = e.read_ref(s_, v)
+        return v
+    lib.stub(r'fs::read_to_string::<', lambda e, s_, a, c: (s_.trace.append(('read_disk',)), Enum('Result', z3.If(read_ok, z3.BitVecVal(0, 64), z3.BitVecVal(1, 64)), {0: Tup([disk]), 1: Tup([Opaque('io::Error', 'rd')])}))[1],
+             'fs::read_to_string = Ok(the text on disk) | Err')
+    lib.stub(r'get_original_snippet$', lambda e, s_, a, c: (s_.trace.append(('ask_source_map',)), Enum('Option', z3.If(have_snip, z3.BitVecVal(1, 64), z3.BitVecVal(0, 64)), {1: Tup([smap])}))[1],
+             'ParseSess::get_original_snippet = Some(the text in the source map) | None')
+    def enum_cmp(e, s_, a, c):
+        x, y = deref(e, s_, a[0]), deref(e, s_, a[1])
+        if not (isinstance(x, Enum) and isinstance(y, Enum)):
+            raise Unsupported('comparison of %r and %r' % (x, y))
+        if x.name == 'FileName' and not (x.concrete() == STDIN or y.concrete() == STDIN):
+            raise Unsupported('FileName comparison between two possibly real paths')
+        r_ = x.discr == y.discr
+        return r_ if c.func.endswith('::eq') else z3.Not(r_)
+    lib.stub(r'(NewlineStyle|FileName) as (std::cmp::)?PartialEq>::(eq|ne)$', enum_cmp, 'NewlineStyle == / != (field-less), FileName == / != Stdin: by discriminant')
+    lib.stub(r'Arc::<.*>::new$', lambda e, s_, a, c: a[0], 'Arc::new (same value)')
+    lib.stub(r'String::as_str$|Arc<.*> as (std::ops::)?Deref>::deref$', lambda e, s_, a, c: a[0], 'Arc<String> -> &str (same text)')
+
+    def emit(e, s_, a, c):
+        ff = deref(e, s_, a[2]) if len(a) > 2 else None
+        s_.trace.append(('emit', ff))
+        return Enum('Result', 0, {0: Tup([Tup([e.fresh_bool('emitted.has_diff')], 'EmitterResult')])})
+    lib.stub(r'Emitter>::emit_formatted_file$|::emit_formatted_file$', emit, 'Emitter::emit_formatted_file observed')
+    try:
+        fn = lib.get_fn(name)
+        st = State()
+        style = z3.BitVec('newline_style', 64)
+        fkind = z3.BitVec('file_name.kind', 64)
+        st.assume(z3.And(style >= 0, style < len(ns), z3.Or(fkind == REAL, fkind == STDIN)))
+        has_psess = z3.BitVec('psess.is_some', 64)
+        st.assume(z3.Or(has_psess == 0, has_psess == 1))
+        fname = lib.ref_to(st, Enum('FileName', fkind, {REAL: Tup([Opaque('PathBuf', 'path')]), STDIN: Tup([])}), False, 'filename')
+        args = []
+        for pn, ty in fn.params:
+            if 'Option<&' in ty and 'ParseSess' in ty:
+                args.append(Enum('Option', has_psess, {1: Tup([lib.ref_to(st, Opaque('ParseSess', 'psess'), False, 'psess')])}))
+            elif 'FileName' in ty:
+                args.append(fname)
+            elif 'NewlineStyle' in ty:
+                args.append(Enum('NewlineStyle', style, {}))
+            elif ty.strip() == '&str':
+                args.append(lib.fresh_str('formatted_text'))
+            else:
+                args.append(lib.fresh_of_type(st, ty, 'arg.%s' % pn))
+        outs = ctx.check_outcomes(lib.run(name, args, st), 'write_file', allow_panic=True)
+    finally:
+        lib.lenient, lib.inline_only, lib.stubs = old
+    mv = [style, fkind, has_psess, read_ok, have_snip]
+    n = 0
+    ff_fields = [x for x, _ in lib.src.struct_fields('FormattedFile', 'src/emitter.rs')]
+    for pi, o in enumerate(outs):
+        if o.kind != 'ret':
+            continue
+        emits = [t for t in o.state.trace if t[0] == 'emit']
+        if not emits:
+            continue
+        n += 1
+        ff = emits[0][1]
+        orig = deref(lib, o.state, ff.items[ff_fields.index('original_text')]) if isinstance(ff, Tup) else None
+        is_disk = isinstance(orig, StrVal) and orig.e is not None and orig.e.eq(disk.e)
+        is_smap = isinstance(orig, StrVal) and orig.e is not None and orig.e.eq(smap.e)
+        ctx.prop('write_file/p%d/with-a-fixed-newline-style-the-original-of-a-real-file-is-the-text-on-disk' % pi, o.state.pc, z3.And(style != AUTO, fkind == REAL, z3.BoolVal(not is_disk)), mv, rp, twin=False)
+        ctx.prop('write_file/p%d/the-original-is-the-text-on-disk-or-the-text-of-the-parse-session' % pi, o.state.pc, z3.BoolVal(not (is_disk or is_smap)), mv, rp, twin=False)
+    if not n:
+        raise Inconclusive('write_file: no path reaches the emitter')
 
 
 def lib_str_sort():
